@@ -632,6 +632,30 @@ func main() {
 		}
 	}
 
+	// the background cleaner: the loop that runs the actions PrepareRemoveDisk returned (a failed
+	// coalesce must end it before the snapshot is unlinked), and what it compares before it starts
+	{
+		f := syncf.fn("Task", "InternalSnapshotCleaner")
+		var loop *ast.RangeStmt
+		ast.Inspect(f, func(x ast.Node) bool {
+			if r, ok := x.(*ast.RangeStmt); ok && src(r.X) == "ops" {
+				loop = r
+			}
+			return true
+		})
+		if loop == nil {
+			fail("InternalSnapshotCleaner: the loop over the prepared actions was not found")
+		}
+		addStr("cleanerActionLoop", src(loop))
+		var conds []string
+		for _, i := range ifs(f) {
+			if i.Pos() < loop.Pos() {
+				conds = append(conds, src(i.Cond))
+			}
+		}
+		addStr("cleanerPreconditions", strings.Join(conds, " ; "))
+	}
+
 	// ---- emit ---------------------------------------------------------------------------
 	var b strings.Builder
 	b.WriteString("/- GENERATED by /verif/extract from /repo's working tree. Do not edit. -/\nnamespace Jiva.Gen\n\n")
